@@ -1443,6 +1443,8 @@ impl Exit for VirtualSystem {
     fn exit(&self, exit_status: ExitStatus) -> impl Future<Output = Infallible> + use<> {
         let mut myself = self.current_process_mut();
         let parent_pid = myself.ppid;
+        // Only the least significant 8 bits are available to the parent process
+        let exit_status = ExitStatus(exit_status.0 & 0xFF);
         let exited = myself.set_state(ProcessState::exited(exit_status));
         drop(myself);
         if exited {
@@ -3656,6 +3658,23 @@ mod tests {
         assert_eq!(
             system.current_process().state(),
             ProcessState::exited(ExitStatus(42))
+        );
+    }
+
+    #[test]
+    fn exit_truncates_exit_status_to_8_bits() {
+        let system = VirtualSystem::new();
+        system.exit(ExitStatus(300)).now_or_never();
+        assert_eq!(
+            system.current_process().state(),
+            ProcessState::exited(ExitStatus(44))
+        );
+
+        let system = VirtualSystem::new();
+        system.exit(ExitStatus(-1)).now_or_never();
+        assert_eq!(
+            system.current_process().state(),
+            ProcessState::exited(ExitStatus(255))
         );
     }
 
